@@ -101,16 +101,16 @@ def worker(ctx):
     if ctx.quick:
         ctx.set_budget(100)
         ccommon.run_std_cases(ctx, ctx.per_shard(48), 8, {"bounds": True, "contain": True, "const": True})
-        ctx.set_budget(170)
+        ctx.set_budget(70)
         ccommon.run_opt_cases(ctx, ctx.per_shard(16), 2, {"contain": True}, variants=[("little", []), ("big", [])])
-        ctx.set_budget(230)
+        ctx.set_budget(60)
         python_and_constants(ctx, ctx.per_shard(160))
     else:
         ctx.set_budget(1200)
         ccommon.run_std_cases(ctx, ctx.per_shard(480), 20, {"bounds": True, "contain": True, "const": True})
-        ctx.set_budget(2400)
+        ctx.set_budget(1200)
         ccommon.run_opt_cases(ctx, ctx.per_shard(160), 6, {"contain": True})
-        ctx.set_budget(3300)
+        ctx.set_budget(900)
         python_and_constants(ctx, ctx.per_shard(4000))
 
 
